@@ -266,6 +266,12 @@ def _has_fixed_name(value: ir.Value) -> bool:
     return value.is_graph_input() or value.is_initializer() or value.is_graph_output()
 
 
+def _is_defined_outside(value: ir.Value, graph: ir.Graph | None) -> bool:
+    """Whether the value is computed by a node that belongs to another (enclosing) graph."""
+    producer = value.producer()
+    return producer is not None and graph is not None and producer.graph is not graph
+
+
 def _update_opset_imports(
     graph_or_function: ir.Graph | ir.Function, delta: ReplacementSubgraph
 ):
@@ -396,8 +402,13 @@ class RewriteRule(Pattern):
             if self.remove_nodes and new_value.producer() in set(match.nodes):
                 # The value returned is computed by a node that is about to be removed.
                 return None
-            if old_value.is_graph_output() and _has_fixed_name(new_value):
-                # Both names are part of an interface: a node has to stay between them.
+            if old_value.is_graph_output() and (
+                _has_fixed_name(new_value) or _is_defined_outside(new_value, node.graph)
+            ):
+                # Both names are part of an interface, or the value returned belongs to an
+                # enclosing graph while the pattern output is an output of this (sub)graph,
+                # which has to be computed by a node of this graph: a node has to stay
+                # between them.
                 if (
                     len(match.nodes) == 1
                     and node.op_type == "Identity"
